@@ -310,3 +310,47 @@ Definition outcome_agrees (r : res mir) (i : ioutcome) : bool :=
   | Err _, IRaise _ => true            (* rejection is compared coarsely *)
   | _, _ => false
   end.
+
+(* ------------------------------------------------------------ histories (C08) *)
+Inductive hstep :=
+| HComplete (p : program)                 (* traced and compiled (compilation may have raised) *)
+| HAbortTrace (prefix : list stmt).       (* nada_main raised after these top-level statements *)
+
+Section History.
+Variable G : genv.
+(* whether nada_dsl_to_nada_mir clears FUNCTIONS at its start (from GenFrontend.cleared) *)
+Variable functions_cleared : bool.
+
+Fixpoint after_history (h : list hstep) (s : tstate) (fns : list Z) : res (tstate * list Z) :=
+  match h with
+  | [] => Ok (s, fns)
+  | HAbortTrace ss :: r =>
+      match exec G (stmts_size ss) [] ss s with
+      | Ok (_, s') => after_history r s' fns
+      | Err e => Err e
+      | OutOfFuel => OutOfFuel
+      end
+  | HComplete p :: r =>
+      match exec G (stmts_size (p_stmts p)) [] (p_stmts p) s with
+      | Ok (ρ, s') =>
+          (* the compilation's effect on FUNCTIONS survives unless it is cleared next time *)
+          let fns0 := if functions_cleared then [] else fns in
+          let fns' := match make_outputs ρ (p_outs p) with
+                      | Ok couts => match compile (store s') fns0 couts with
+                                    | Ok (_, f) => f
+                                    | _ => fns0
+                                    end
+                      | _ => fns0
+                      end in
+          after_history r s' fns'
+      | Err e => Err e
+      | OutOfFuel => OutOfFuel
+      end
+  end.
+
+Definition run_after (h : list hstep) (p : program) : res mir :=
+  do sf <- after_history h init_state [];
+  let '(s, fns) := sf in
+  do r <- run_from G s (if functions_cleared then [] else fns) p;
+  Ok (fst (fst r)).
+End History.
